@@ -13,7 +13,7 @@ from .core import Engine, PathAbort, EngineLimit, EngineFault, SBool
 
 VERIF = os.path.dirname(os.path.dirname(os.path.abspath(__file__)))
 REPO = os.environ.get("AMSHAN_REPO", "/repo")
-EVID = os.path.join(VERIF, "evidence")
+EVID = os.environ.get("VERIF_EVIDENCE_DIR") or os.path.join(VERIF, "evidence")     # seed evaluations write their evidence elsewhere
 KNOWN = os.path.join(VERIF, "known_findings.json")
 
 
